@@ -1,18 +1,352 @@
 package harness
 
-import "math/rand"
+// Scenario generators for the Batcher families. Every random choice derives from
+// (family, seed, idx) through one PRNG.
+
+import (
+	"math/rand"
+	"sort"
+)
 
 const MS = int64(1000000)
+const SEC = 1000 * MS
+const HOUR = 3600 * SEC
 
-// GenBatcher returns scenario number idx of a family; every random choice derives
-// from (seed, idx).
+func pick[T any](rng *rand.Rand, xs ...T) T { return xs[rng.Intn(len(xs))] }
+
+func chance(rng *rand.Rand, p float64) bool { return rng.Float64() < p }
+
+// options steering the generic random generator
+type batOpts struct {
+	gens        []int
+	bufcaps     []int
+	errFullP    float64
+	limiterP    float64
+	flushes     []int64
+	capints     []int64
+	audits      []int64
+	maxops      []int64
+	pauses      []int64
+	maxconcs    []int
+	nWatchers   []int
+	maxBatches  []uint32
+	maxAttempts []uint32
+	wMaxOps     []int64 // relative choices: 0 unset, -1 negative, 1 shorter than batcher, 2 longer
+	nOps        []int
+	costs       []int64
+	caps        []int64 // Capacity() values
+	maxcapSlack []int64 // MaxCapacity = max(cap)+slack
+	durs        []int64 // callback durations; -1 = around the timeout; -2 = "never"
+	gapMS       []int64 // mean gap between driver steps
+	coincideP   float64 // probability that a step is snapped to a multiple of the flush interval
+	burstP      float64 // probability that an enqueue is followed by more at the same instant
+	reenqP      float64
+	maxReenq    int // at most this many re-enqueues of an existing object per scenario
+	nonBatchP   float64
+	pauseP      float64
+	flushP      float64
+	probeP      float64
+	capChangeP  float64
+	rejectP     float64 // malformed enqueues: nil op, no watcher, too expensive
+	holdP       float64 // park an enqueuer at the hook
+	costShiftP  float64 // operation whose cost differs at completion
+	stopMidP    float64 // stop somewhere in the middle and keep calling the API afterwards
+	startLateP  float64 // some calls before Start
+	setterP     float64
+	horizonMin  int64 // keep running at least this long before the final stop
+	lateOnly    bool    // with a never-returning callback present, allow the tail to be long
+}
+
+func defaultBatOpts() batOpts {
+	return batOpts{
+		gens: []int{1, 2}, bufcaps: []int{1, 2, 3, 5, 8, 50}, errFullP: 0.3, limiterP: 0.6,
+		flushes: []int64{0, 100 * MS, 20 * MS, 7 * MS, 250 * MS}, capints: []int64{0, 100 * MS, 30 * MS, 70 * MS},
+		audits: []int64{0, 330 * MS, 1 * SEC}, maxops: []int64{0, 300 * MS, 2 * SEC, 40 * MS},
+		pauses: []int64{0, 3 * MS, 250 * MS}, maxconcs: []int{0, 0, 1, 2, 3}, nWatchers: []int{1, 2, 3, 4},
+		maxBatches: []uint32{0, 1, 2, 3, 7}, maxAttempts: []uint32{0, 0, 1, 2, 3}, wMaxOps: []int64{0, 0, -1, 1, 2},
+		nOps: []int{0, 3, 8, 20, 40}, costs: []int64{0, 1, 1, 2, 3, 5, 10, 40}, caps: []int64{0, 5, 30, 100, 1000, 100000},
+		maxcapSlack: []int64{0, 10, 1000}, durs: []int64{0, 1*MS + 13, 30*MS + 7, 170*MS + 3, -1, -2},
+		gapMS: []int64{1, 10, 40, 150}, coincideP: 0.08, burstP: 0.2, reenqP: 0.12, maxReenq: 3, nonBatchP: 0.3,
+		pauseP: 0.05, flushP: 0.08, probeP: 0.15, capChangeP: 0.05, rejectP: 0.06, holdP: 0.0,
+		costShiftP: 0.0, stopMidP: 0.15, startLateP: 0.15, setterP: 0.02, horizonMin: 0,
+	}
+}
+
+type objInfo struct {
+	w, cost, costDone, dur int64
+	batchable              bool
+}
+
+func dfl(v, d int64) int64 {
+	if v <= 0 {
+		return d
+	}
+	return v
+}
+
+// genRandomBat builds one random scenario under the given options.
+func genRandomBat(rng *rand.Rand, name string, o batOpts) *Scenario {
+	sc := &Scenario{Name: name}
+	sc.Gen = pick(rng, o.gens...)
+	sc.BufCap = pick(rng, o.bufcaps...)
+	sc.ErrFull = chance(rng, o.errFullP)
+	sc.Limiter = chance(rng, o.limiterP)
+	sc.Flush = pick(rng, o.flushes...)
+	sc.CapInt = pick(rng, o.capints...)
+	sc.Audit = pick(rng, o.audits...)
+	sc.MaxOp = pick(rng, o.maxops...)
+	sc.Pause = pick(rng, o.pauses...)
+	if sc.Gen == 2 {
+		sc.MaxConc = pick(rng, o.maxconcs...)
+	}
+	effMaxOp := dfl(sc.MaxOp, 60*SEC)
+	effFlush := dfl(sc.Flush, 100*MS)
+	nw := pick(rng, o.nWatchers...)
+	for i := 0; i < nw; i++ {
+		wc := WCfg{MaxBatch: pick(rng, o.maxBatches...), MaxAttempts: pick(rng, o.maxAttempts...)}
+		switch pick(rng, o.wMaxOps...) {
+		case -1:
+			wc.MaxOp = -5 * MS
+		case 1:
+			wc.MaxOp = effMaxOp/2 + 11
+		case 2:
+			wc.MaxOp = effMaxOp*2 + 11
+		}
+		sc.Watchers = append(sc.Watchers, wc)
+	}
+	timeoutOf := func(w int64) int64 {
+		if sc.Watchers[w].MaxOp > 0 {
+			return sc.Watchers[w].MaxOp
+		}
+		return effMaxOp
+	}
+	capv := pick(rng, o.caps...)
+	maxcap := capv + pick(rng, o.maxcapSlack...)
+	for _, c := range o.caps {
+		if c > maxcap && chance(rng, 0.3) {
+			maxcap = c
+		}
+	}
+	var steps []Step
+	t := int64(0)
+	steps = append(steps, Step{At: 0, Kind: "setcap", A: []int64{capv}}, Step{At: 0, Kind: "setmaxcap", A: []int64{maxcap}})
+	started := false
+	startAt := -1
+	nops := pick(rng, o.nOps...)
+	if nops > 0 {
+		nops = nops/2 + rng.Intn(nops)
+	}
+	if !chance(rng, o.startLateP) {
+		steps = append(steps, Step{At: 0, Kind: "start"})
+		started = true
+	} else {
+		startAt = rng.Intn(nops/2 + 1)
+	}
+	objs := map[int64]*objInfo{}
+	var objIDs []int64
+	nextObj := int64(1)
+	gap := pick(rng, o.gapMS...)
+	stopAt := -1
+	if chance(rng, o.stopMidP) {
+		stopAt = rng.Intn(nops + 1)
+	}
+	stopped := false
+	var maxDur int64
+	ncalls := int64(0)
+	var held []int64
+	nReenq := 0
+	advance := func() {
+		d := int64(rng.ExpFloat64()*float64(gap)*float64(MS)) + 1
+		if d > 20*gap*MS {
+			d = 20 * gap * MS
+		}
+		t += d
+		if chance(rng, o.coincideP) {
+			t = (t/effFlush + 1) * effFlush // exactly on a tick instant (ticks are multiples when Start is at 0)
+		} else if t%MS == 0 {
+			t += 37
+		}
+	}
+	mkEnq := func() Step {
+		if chance(rng, o.rejectP) {
+			switch rng.Intn(3) {
+			case 0:
+				return Step{At: t, Kind: "enq", A: []int64{1, -1, 0, 0, 0, 0, 0, 0}}
+			case 1:
+				id := nextObj
+				nextObj++
+				objs[id] = &objInfo{w: -1, cost: 1, costDone: 1}
+				return Step{At: t, Kind: "enq", A: []int64{0, -1, id, 1, 1, 0, 0, 0}}
+			default:
+				if sc.Limiter {
+					id := nextObj
+					nextObj++
+					w := int64(rng.Intn(nw))
+					objs[id] = &objInfo{w: w, cost: maxcap + 1, costDone: maxcap + 1}
+					return Step{At: t, Kind: "enq", A: []int64{0, w, id, maxcap + 1, maxcap + 1, 1, 0, 0}}
+				}
+			}
+		}
+		var id int64
+		var inf *objInfo
+		if len(objIDs) > 0 && nReenq < o.maxReenq && chance(rng, o.reenqP) {
+			nReenq++
+			id = objIDs[rng.Intn(len(objIDs))]
+			inf = objs[id]
+		} else {
+			id = nextObj
+			nextObj++
+			cost := pick(rng, o.costs...)
+			if sc.Limiter && cost > maxcap {
+				cost = maxcap
+			}
+			inf = &objInfo{w: int64(rng.Intn(nw)), cost: cost, costDone: cost, batchable: !chance(rng, o.nonBatchP)}
+			if chance(rng, o.costShiftP) {
+				inf.costDone = pick(rng, 0, cost+1, cost+3, cost/2)
+			}
+			inf.dur = pick(rng, o.durs...)
+			switch inf.dur {
+			case -1:
+				inf.dur = timeoutOf(inf.w) + pick(rng, int64(-1), 0, 1)
+			case -2:
+				inf.dur = 10 * HOUR
+			}
+			objs[id] = inf
+			if inf.cost == inf.costDone { // objects with a shifting cost are enqueued once only
+				objIDs = append(objIDs, id)
+			}
+		}
+		dur := inf.dur
+		if dur > maxDur {
+			maxDur = dur
+		}
+		hold := int64(0)
+		if chance(rng, o.holdP) {
+			hold = 1
+		}
+		return Step{At: t, Kind: "enq", A: []int64{0, inf.w, id, inf.cost, inf.costDone, b2i(inf.batchable), dur, hold}}
+	}
+	for i := 0; i <= nops; i++ {
+		if !started && i == startAt {
+			advance()
+			steps = append(steps, Step{At: t, Kind: "start"})
+			started = true
+		}
+		if i == stopAt && !stopped {
+			advance()
+			steps = append(steps, Step{At: t, Kind: "stop"})
+			stopped = true
+		}
+		if i == nops {
+			break
+		}
+		advance()
+		st := mkEnq()
+		steps = append(steps, st)
+		if st.A[7] == 1 && st.A[0] == 0 && st.A[1] >= 0 {
+			held = append(held, ncalls)
+		}
+		ncalls++
+		for chance(rng, o.burstP) {
+			st := mkEnq()
+			steps = append(steps, st)
+			if st.A[7] == 1 && st.A[0] == 0 && st.A[1] >= 0 {
+				held = append(held, ncalls)
+			}
+			ncalls++
+		}
+		if len(held) > 0 && chance(rng, 0.5) {
+			advance()
+			steps = append(steps, Step{At: t, Kind: "release", A: []int64{held[0]}})
+			held = held[1:]
+		}
+		if chance(rng, o.pauseP) {
+			advance()
+			steps = append(steps, Step{At: t, Kind: "pause"})
+		}
+		if chance(rng, o.flushP) {
+			advance()
+			steps = append(steps, Step{At: t, Kind: "flush"})
+		}
+		if chance(rng, o.probeP) {
+			advance()
+			steps = append(steps, Step{At: t, Kind: "probe"})
+		}
+		if sc.Limiter && chance(rng, o.capChangeP) {
+			advance()
+			nc := pick(rng, o.caps...)
+			if nc > maxcap {
+				nc = maxcap
+			}
+			steps = append(steps, Step{At: t, Kind: "setcap", A: []int64{nc}})
+		}
+		if sc.Gen == 2 && started && chance(rng, o.setterP) {
+			advance()
+			steps = append(steps, Step{At: t, Kind: "setter", A: []int64{int64(rng.Intn(7)), 5 * MS}})
+		}
+		if chance(rng, 0.01) {
+			advance()
+			steps = append(steps, Step{At: t, Kind: "start"})
+		}
+	}
+	if !started {
+		advance()
+		steps = append(steps, Step{At: t, Kind: "start"})
+	}
+	for _, h := range held {
+		advance()
+		steps = append(steps, Step{At: t, Kind: "release", A: []int64{h}})
+	}
+	// let things drain, probing now and then, then stop and probe again
+	drain := int64(rng.Intn(5)+1) * effFlush * 3
+	if o.horizonMin > 0 && t+drain < o.horizonMin {
+		drain = o.horizonMin - t
+	}
+	for k := 0; k < 3; k++ {
+		t += drain/3 + 41
+		steps = append(steps, Step{At: t, Kind: "probe"})
+	}
+	if !stopped {
+		t += 13
+		steps = append(steps, Step{At: t, Kind: "stop"})
+	}
+	if chance(rng, 0.3) {
+		t += 1*MS + 7
+		steps = append(steps, mkEnq())
+		ncalls++
+	}
+	if sc.Gen == 1 && chance(rng, 0.2) {
+		t += 17
+		steps = append(steps, Step{At: t, Kind: "stop"})
+	}
+	t += dfl(sc.Pause, 500*MS) + 5*MS + 3
+	steps = append(steps, Step{At: t, Kind: "probe"})
+	sort.SliceStable(steps, func(i, j int) bool { return steps[i].At < steps[j].At })
+	sc.Steps = steps
+	sc.Tail = maxDur + 2*effMaxOp + 4*effMaxOp + 2*SEC
+	for _, w := range sc.Watchers {
+		if w.MaxOp > 0 && w.MaxOp+SEC > sc.Tail {
+			sc.Tail = w.MaxOp + SEC
+		}
+	}
+	return sc
+}
+
+// GenBatcher returns scenario number idx of a family.
 func GenBatcher(family string, seed int64, idx int) *Scenario {
-	rng := rand.New(rand.NewSource(seed*1000003 + int64(idx)*7919 + int64(len(family))))
+	h := int64(0)
+	for _, ch := range family {
+		h = h*131 + int64(ch)
+	}
+	rng := rand.New(rand.NewSource(seed*1000003 + int64(idx)*7919 + h))
+	o := defaultBatOpts()
 	switch family {
 	case "smoke":
 		return genSmoke(rng, idx)
+	case "general":
+		return genRandomBat(rng, family, o)
 	}
-	return nil
+	return genFamily(rng, family, idx, o)
 }
 
 func enq(at int64, w, obj, cost int64, batchable bool, dur int64) Step {
@@ -35,4 +369,8 @@ func genSmoke(rng *rand.Rand, idx int) *Scenario {
 		{At: 400*MS + 11, Kind: "probe"},
 	}
 	return sc
+}
+
+func genFamily(rng *rand.Rand, family string, idx int, o batOpts) *Scenario {
+	return nil
 }
